@@ -3,12 +3,15 @@ import RTV.Model.NumExtract
 import RTV.Gen.NumRegexIndex
 import RTV.Gen.ReTables
 import RTV.Gen.CharTables
+import RTV.Gen.NumFollow
+import RTV.Model.Preprocess
 /-! Driver handlers for `NumExtract` (C03, the extraction front end for digit literals).
 `<ext>` = `<lang>/<Default|Pure>` (a key of `RTV.Gen.NumRegex.allExt`).
   nx.extract <ext> <cps>        -> start:len:tag:textcps;…   `BaseNumberExtractor.extract`, regexes = the digit family
   nx.core <ext> <cps>           -> start:len:tag:textcps;…   the sweep alone (no negative terms, no ambiguity filters)
   nx.find <ext> <idx> <cps>     -> a:b;a:b                   `finditer` spans of family regex number idx | err:KeyError
   nx.fam <ext>                  -> idx,idx,…                 indices of the family regexes
+  nx.follower <lang> <cps>      -> 1 | 0 | err:KeyError      `isFollower` of the text after a literal (follower list of <lang>)
 -/
 namespace RTV.Drv.Nx
 open RTV.Drv RTV.Py RTV.Re RTV.Span RTV.NumExtract
@@ -48,6 +51,12 @@ def hFam : Handler
     | none => "err:KeyError"
   | _ => "bad-op"
 
+def hFollower : Handler
+  | [l, s] => match RTV.Gen.NumFollow.all.find? (·.1 == l) with
+    | some p => if isFollower RTV.Gen.reTables (RTV.Preprocess.lowerSimple RTV.Gen.lowerPairs) p.2 (parseCps s) then "1" else "0"
+    | none => "err:KeyError"
+  | _ => "bad-op"
+
 end RTV.Drv.Nx
 
 namespace RTV.Drv
@@ -57,5 +66,6 @@ def dispatchNumExtract (op : String) (args : List String) : Option String :=
   | "nx.core" => some (Nx.hCore args)
   | "nx.find" => some (Nx.hFind args)
   | "nx.fam" => some (Nx.hFam args)
+  | "nx.follower" => some (Nx.hFollower args)
   | _ => none
 end RTV.Drv
